@@ -104,6 +104,7 @@ def run_breadlog(config_path, check=False, cwd=None, env=None, tmpdir=None, time
         e["FSX_LOG"] = shim["log"]
         e["FSX_ROOTS"] = ":".join(shim["roots"])
         e["FSX_PLAN"] = shim.get("plan", "")
+        e["FSX_STICKY_PATH_PREFIX"] = shim.get("sticky_prefix", "")
         open(shim["log"], "wb").close()
     cmd = [binary or BIN, "-c", config_path]
     if check:
